@@ -9,11 +9,16 @@ The statement of C09 evaluated on the implementation's own output:
     that reduce to the aligned subsequences when the gap letter is removed;
   * ill-typed input (illegal letter, differing alphabets or types, non-square or undersized
     matrix, alphabet without leading gap): an error, never a panic and never an alignment.
-Known finding K5 (C09): the traceback `switch` tests its cases against the current value
-whatever the current layer, so a numeric tie can move the path to another layer and a gap
-pair is then reported without (or with a second) gap-open.  Recognised when the path is
-otherwise well formed, the model reproduces the pairs exactly, and the model's traceback of
-this input takes a `case` that does not belong to its current layer (`tieSwitched`).
+K5 (C09, repaired): before the repair the traceback `switch` tested its cases against the
+current value whatever the current layer, so a numeric tie could move the path to another
+layer and a gap pair was then reported without (or with a second) gap-open.  The recogniser
+stays, so that a regression is named: unfaithful pairs are `known:K5` when the path is
+otherwise well formed, the model of the layer-blind traceback (`legacyPairs`) reproduces the
+pairs exactly, and that traceback takes a `case` that does not belong to its current layer on
+this input (`tieSwitched`).  `KNOWN_FINDINGS.txt` no longer lists K5, so the check then fails.
+The repair must not change anything else: when the layer-blind traceback takes no such `case`
+on an input (`tieSwitched = false`), the implementation's pairs must be the ones it returned
+(`diff` otherwise; tags `legacy-same`, `legacy-tie`).
 Core only.
 -/
 import Biogo.Drive.AffCommon
@@ -74,14 +79,21 @@ def handleCase (c : Case) (obs : String) : Verdict :=
       match formatOk c ps f with
       | some why => fail why base
       | none =>
-        if faithful S c.gapOpen r q ps then fin (base ++ ["faithful"])
+        let legacy := legacyPairs c.w S c.gapOpen r q
+        let tie := tieSwitched c.w S c.gapOpen r q
+        let legacySame := modelObs legacy == obsHead obs
+        if faithful S c.gapOpen r q ps then
+          if !tie ∧ !legacySame then
+            diff s!"differs from the traceback before the K5 repair although that one takes no case of another layer: {modelObs legacy}" (base ++ ["faithful"])
+          else fin (base ++ ["faithful"] ++ (if tie then ["legacy-tie"] else []) ++
+            (if legacySame then ["legacy-same"] else ["legacy-differs"]))
         else
           let bad := ps.filter fun p => p.score != pairScore S c.gapOpen r q p
           let why := match bad.head? with
             | some p => s!"pair {showPair p} recomputed score {pairScore S c.gapOpen r q p}"
             | none => ""
-          if same ∧ tieSwitched c.w S c.gapOpen r q then
-            known "K5" s!"{why}: a numeric tie moved the traceback to another layer (model reproduces the pairs)" (base ++ ["k5"])
+          if legacySame ∧ tie then
+            known "K5" s!"{why}: a numeric tie moved the traceback to another layer (the model of the layer-blind switch reproduces the pairs)" (base ++ ["k5"])
           else fail why base
   | .other s => bad s!"unparsable observation {s}"
 
